@@ -36,12 +36,17 @@ def _start_pair_ok(fn, n_chrom, n_base, fields):
 
 
 def ob_rtree_node_spans(ctx, res):
-    fn = ctx.ast.fn(W, "get_rtreeindex")
-    lits = [n for n in walk_no_nested_fn(fn.body) if n.k == "struct" and n["path"].endswith("RTreeNode")]
+    fn0 = ctx.ast.fn(W, "get_rtreeindex")
+    from ..astq import private_callees
+    lits = []
+    for g in [fn0] + private_callees(ctx.ast, fn0, 1):
+        for n in walk_no_nested_fn(g.body):
+            if n.k == "struct" and n["path"].endswith("RTreeNode"):
+                lits.append((g, n))
     if len(lits) != 2:
-        res.fail("rtreeNode/literals", fn, "expected 2 RTreeNode literals (children = data sections / child nodes), found %d" % len(lits))
+        (res.undecided if lits else res.fail)("rtreeNode/literals", fn0, "expected 2 RTreeNode literals (children = data sections / child nodes) in get_rtreeindex or the helpers it uses, found %d" % len(lits))
         return
-    for lit in lits:
+    for fn, lit in lits:
         f = {x["name"]: x["e"] for x in lit["fields"]}
         # which arm: enclosing match arm pattern
         arm = lit.parent
